@@ -432,6 +432,10 @@ func (r *runner) trackDeath() {
 func (r *runner) step(a string) {
 	if !r.executorAlive() {
 		r.obs.Unrealised = append(r.obs.Unrealised, a)
+		switch a { // a request to a dead executor is a request that is never answered
+		case "conf", "start", "stop", "reset", "trigger":
+			r.reqs = append(r.reqs, struct{ name, id string }{a, fmt.Sprintf("dead-%d", len(r.reqs))})
+		}
 		return
 	}
 	nChildren := len(r.pidLines())
